@@ -165,3 +165,25 @@ def handleRomfs (cmd : String) (args : List SExp) : String :=
   | _, _ => "bad-args"
 
 end Pyctr
+
+namespace Pyctr
+
+def handleSd (cmd : String) (args : List SExp) : String :=
+  match cmd, args with
+  | "sd-iv", [p] =>
+    match strOfSExp p with
+    | some path => toString (Sd.sdIv lowerAsciiUnits Prim.sha256 path)
+    | none => "bad-args"
+  | "sd-key", [d, dv, bl] =>
+    match d.bytes?, dv.nat?, bl.bytes? with
+    | some data, some dev, some blob =>
+      match Sd.setupSdKey Prim.sha256 (Engine.create (dev == 1) (some blob)) data with
+      | .ok (e, id0) =>
+        "ok " ++ (match e.normal 0x34 with | some k => toHexW k | none => "none") ++ " " ++
+          (match e.normal 0x30 with | some k => toHexW k | none => "none") ++ " " ++
+          (match e.normal 0x3A with | some k => toHexW k | none => "none") ++ " " ++ toHexW id0
+      | .error e => "e:" ++ e.name
+    | _, _, _ => "bad-args"
+  | _, _ => "bad-args"
+
+end Pyctr
